@@ -90,6 +90,24 @@ func (e *Engine) block(st *State, g *G, w waitKind, on []int, key string) {
 	g.name2 = key
 }
 
+func (e *Engine) othersCanRun(st *State, self *G) bool {
+	if st.settle && self.id != 0 {
+		// fine: others may still run
+	}
+	for _, g := range st.gs {
+		if g == self {
+			continue
+		}
+		if g.id == 0 && st.settle {
+			continue
+		}
+		if g.status == gRunnable || (g.status == gBlocked && e.canProceed(st, g)) {
+			return true
+		}
+	}
+	return false
+}
+
 // schedule picks the next goroutine to run. Called when the current one is not runnable.
 func (e *Engine) schedule(st *State) []*State {
 	var cands []int
